@@ -59,6 +59,8 @@ class MSys:
         return m
 
     def margin(self, atol):
+        if atol == 0:
+            return 0.0
         """Half-width, as a fraction of atol, of the band around atol in which the model does not decide: 3 % of the
         tolerance, widened when the tolerance is so small in the current working units that the rounding of the position
         arithmetic (a few hundred ulp of the cell size) becomes comparable to it."""
@@ -69,6 +71,16 @@ class MSys:
         """(sure matches, borderline?) of atoms within atol of Cartesian P, periodic."""
         near, border = [], False
         dl = self.margin(atol)
+        if atol == 0:
+            # "exact coordinates only": a match is a distance of exactly zero; anything within rounding of it is undecided
+            size = float(np.abs(self.V).max()) + float(np.abs(self.o).max()) + 1.0
+            for i, r in enumerate(self.rows):
+                d = pdist(self.V, self.pbc, P, r['pos'])
+                if d == 0.0 and np.array_equal(np.asarray(P, dtype=float), np.asarray(r['pos'], dtype=float)):
+                    near.append(i)
+                elif d < 1e-9 * size:
+                    border = True
+            return near, border
         for i, r in enumerate(self.rows):
             d = pdist(self.V, self.pbc, P, r['pos'])
             if d <= (1 - dl) * atol:
@@ -95,7 +107,7 @@ class PointEngine(Engine):
     expected_probes = ['history_len_ge_3', 'select_by_image', 'select_by_rel', 'select_negative_id', 'refused_absent',
                        'refused_ambiguous', 'refused_occupied', 'refused_occupied_image', 'allowed_nonperiodic_image',
                        'differential_alternatives', 'kwargs_given', 'origin_nonzero_scaled_db', 'one_atom_system',
-                       'integer_pos_input', 'old_id_composed', 'scribbled_results', 'working_units_changed', 'dumbbell_vector_object_reused']
+                       'integer_pos_input', 'old_id_composed', 'scribbled_results', 'working_units_changed', 'dumbbell_vector_object_reused', 'working_units_from_seed', 'explicit_zero_tolerance']
     rule = ('Each run builds a base System (LAMMPS-oriented or rotated cell, any origin, any periodicity, 1-24 atoms with '
             'pairwise periodic separation >= 0.5 A, optionally one deliberately ambiguous pair 0.3*atol apart, 1-3 atom '
             'types, 0-3 extra per-atom properties of rank 0-2, optionally integer lattice coordinates) and applies a '
@@ -204,13 +216,16 @@ class PointEngine(Engine):
         scen = ctx.wchoice([('normal', 6), ('absent', 1), ('ambiguous', 1.2 if st['cfg']['pair'] else 0.2), ('occupied', 1),
                             ('illformed', 0.8), ('goto', 0.4), ('units', 0.5)])
         if scen == 'units':
+            if r.random() < 0.3:
+                # working units re-drawn from a seed (numericalunits' own way); the length unit becomes some odd number
+                return {'op': 'units', 'length': 'seed', 'seed': r.choice([2, 6, 11, 23, 101])}
             return {'op': 'units', 'length': r.choice([u for u in LENGTH_UNITS if u != st['length']])}
         if scen == 'goto':
             return {'op': 'goto', 'to': r.randrange(len(st['hist']))}
         if scen == 'illformed':
             return {'op': 'illformed', 'what': r.choice(['bad_id', 'same_type', 'pos_and_id', 'neither', 'bad_type', 'v_with_kwargs']),
                     'kind': r.choice(['v', 's', 'db'])}
-        atol = r.choice([None, None, 0.05, 0.002])
+        atol = r.choice([None, None, None, 0.05, 0.002, 0, 0.0])
         av = st['atol0'] if atol is None else atol
         kind = r.choice(['v', 'i', 's', 'db'])
         if scen == 'occupied':
@@ -293,11 +308,19 @@ class PointEngine(Engine):
         if k == 'units':
             # the caller changes the working units between two insertions: every stored number keeps its value, what
             # "0.01 angstrom" (the documented default tolerance) is as a number changes
-            if op['length'] not in LENGTH_UNITS:
+            if op['length'] == 'seed':
+                import numericalunits as nu
+                am.unitconvert.reset_units(int(op['seed']))
+                st['length'] = 'seed'
+                # one angstrom is 1e-10 m whatever the metre is worth now (read from numericalunits, not from atomman's table)
+                st['atol0'] = self._atol0 = DEFAULT_ATOL * 1e-10 * float(nu.m)
+                ctx.probe('working_units_from_seed')
+            elif op['length'] not in LENGTH_UNITS:
                 return
-            am.unitconvert.reset_units(length=op['length'], mass='amu', energy='eV', charge='e')
-            st['length'] = op['length']
-            st['atol0'] = self._atol0 = DEFAULT_ATOL * LENGTH_UNITS[op['length']]
+            else:
+                am.unitconvert.reset_units(length=op['length'], mass='amu', energy='eV', charge='e')
+                st['length'] = op['length']
+                st['atol0'] = self._atol0 = DEFAULT_ATOL * LENGTH_UNITS[op['length']]
             ctx.fault('working_units_changed')
             ctx.probe('working_units_changed')
             ctx.ev('op', 'units', {'length': op['length']}, {'atol0': st['atol0']})
@@ -355,6 +378,8 @@ class PointEngine(Engine):
             kw['pos'] = self._fmt(P, op['pos_as'])
         if op['atol'] is not None:
             kw['atol'] = op['atol']
+            if op['atol'] == 0:
+                ctx.probe('explicit_zero_tolerance')
         return kw
 
     def _insert(self, ctx, st, m, op):
@@ -378,6 +403,8 @@ class PointEngine(Engine):
             near, border = m.matches(P, av)
             if border:
                 return None
+            if av == 0 and sel != 'pos':
+                return None         # exact coordinates cannot be demanded through a box-relative or image round trip
             if kind == 'i':
                 expect = 'ok' if not near else 'refuse'
                 site = None
@@ -594,8 +621,9 @@ class PointEngine(Engine):
             near, border = m.matches(P, self._atol0 if op['atol'] is None else op['atol'])
             if near == [site] and not border:
                 alts.append(('pos', {'pos': P.copy()}))
-                alts.append(('rel', {'pos': geom.cart_to_rel(m.V, m.o, P), 'scale': True}))
-                if periodic:
+                if op['atol'] != 0:
+                    alts.append(('rel', {'pos': geom.cart_to_rel(m.V, m.o, P), 'scale': True}))
+                if periodic and op['atol'] != 0:
                     sh = np.zeros(3)
                     sh[periodic[0]] = 1.0
                     sh[periodic[-1]] = -1.0 if len(periodic) > 1 else 1.0
